@@ -18,6 +18,17 @@ Facts about lengths are versioned: an assignment to x, `del x[..]`, or a mutatin
 extend, remove, clear) starts a new version of len(x) (with the exact relation for `x = x[k:]`, `del x[k]`,
 append / insert); loops and try-bodies forget every variable they may modify.
 
+Round 4 (vanilla macros): the helpers that are CALLED with positions / slices are analysed too
+(Tokenizer.merge_vanilla_macro, Tokenizer.merge_tokens, condition_to_ast, find_operator, custom_condition,
+FuncContent.__optimize / __parse_commands / __expect_command).  What such a function may assume about its
+parameters is its PRECONDITION (table PRECONDITIONS: `key_pos >= 0`, `len(tokens) >= 1`); every assumption is turned
+into an OBLIGATION at every call site inside the analysed functions (`0 <= argument`, `1 <= len(argument)`, with
+Python's slice lengths), and for the functions marked `complete` every call site of the tree must lie inside an
+analysed function.  A call `x.merge_vanilla_macro(tokens, k)` replaces len(tokens) by a new version with the facts
+of the theorem about its model (C13_macro_merge_total / C13_macro_nonempty: never longer, at most two shorter,
+non-empty stays non-empty); a loop that changes a list ONLY through such calls keeps `never longer` and `non-empty
+stays non-empty` as its invariant.  A call of a method of `self` forgets every fact about `self.*` attributes.
+
 Producer facts (the only assumptions about parameters; both are theorems about the model of the producer):
   * a parameter listed in STATEMENT_PARAMS is a statement of `Tokenizer.programs` (or a non-empty slice of one):
     len >= 1                                     [C13_tok_nonempty]
@@ -36,7 +47,30 @@ TARGETS = {
     "src/jmc/compile/lexer.py": ["parse_func_tokens", "parse_new", "parse_class", "parse_decorated_function",
                                  "parse_file", "parse_class_content", "_is_vanilla_func"],
     "src/jmc/compile/command/var_operation.py": ["variable_operation"],
+    # round 4
+    "src/jmc/compile/tokenizer.py": ["merge_vanilla_macro", "merge_tokens"],
+    "src/jmc/compile/command/condition.py": ["condition_to_ast", "find_operator", "custom_condition", "parse_condition"],
+    "src/jmc/compile/lexer_func_content.py": ["__optimize", "__parse_commands", "__expect_command"],
 }
+# functions analysed since round 4: nothing is assumed about their parameters except their PRECONDITIONS
+NO_STATEMENT_PARAMS = {"merge_vanilla_macro", "merge_tokens", "condition_to_ast", "find_operator", "custom_condition",
+                       "parse_condition", "__optimize", "__parse_commands", "__expect_command"}
+# function -> what it may assume (checked at the call sites): integer parameters that are >= 0, sequence parameters
+# that are non-empty; complete: every call site in jmc/compile must be inside an analysed function
+PRECONDITIONS = {
+    "merge_vanilla_macro": dict(nonneg=["key_pos"], nonempty=[], complete=True),
+    "merge_tokens": dict(nonneg=[], nonempty=["tokens"], complete=False),
+    "condition_to_ast": dict(nonneg=[], nonempty=["tokens"], complete=True),
+    "find_operator": dict(nonneg=[], nonempty=["_tokens"], complete=True),
+    "custom_condition": dict(nonneg=[], nonempty=["tokens"], complete=True),
+    "__expect_command": dict(nonneg=["key_pos"], nonempty=[], complete=True),
+}
+# attributes that hold a statement of Tokenizer.programs (FuncContent.command): len >= 1 [C13_tok_nonempty, and
+# C13_macro_nonempty for the merges done in place]
+STATEMENT_ATTRS = {"__parse_commands": ["self.command"], "__expect_command": ["self.command"]}
+# method -> position of the list argument it shrinks in place (theorem about Model/TokMacro.v: merge_vm_post)
+SHRINKERS = {"merge_vanilla_macro": 0}
+SELF_ALL = "self.*"
 # parameters that are statements (elements of Tokenizer.programs, or slices proved non-empty at the call site)
 STATEMENT_PARAMS = {"command", "tokens"}
 MUTATORS_EXACT = {"append": 1, "insert": 1}
@@ -70,6 +104,8 @@ PURE_BUILTINS = {"len", "isinstance", "str", "int", "bool", "repr", "print", "ra
 # filled by analyse_tree: function name -> (FunctionDef, parameter names) for every function of jmc/compile defined once
 DEFS: dict = {}
 _PURITY_CACHE: dict = {}
+# filled by analyse_tree: function / method name -> parameter names without `self`, for every name defined exactly once
+ALLDEFS: dict = {}
 
 
 def reads_only(fname: str, pos: int, depth: int = 0) -> bool:
@@ -144,11 +180,32 @@ def call_may_mutate(call: ast.Call, argpos: int) -> bool:
     return True
 
 
-def modified_names(nodes) -> set[str]:
-    """names whose length may change anywhere inside the given statements"""
+def shrink_call(x) -> str | None:
+    """x = `<obj>.merge_vanilla_macro(<name>, ..)` -> the name of the list it shrinks in place"""
+    if isinstance(x, ast.Call) and isinstance(x.func, ast.Attribute) and x.func.attr in SHRINKERS:
+        i = SHRINKERS[x.func.attr]
+        if i < len(x.args):
+            return base_name(x.args[i])
+    return None
+
+
+def modified_names(nodes, skip_shrink: bool = False) -> set[str]:
+    """names whose length may change anywhere inside the given statements (`self.*` = every attribute of self: a method
+    of self was called); skip_shrink: calls of SHRINKERS are not counted for the list they shrink"""
     out = set()
     for n in nodes:
         for x in ast.walk(n):
+            if isinstance(x, ast.Call) and isinstance(x.func, ast.Attribute) and base_name(x.func.value) == "self":
+                out.add(SELF_ALL)
+            if isinstance(x, ast.Call) and any(base_name(a) == "self" for a in x.args):
+                out.add(SELF_ALL)
+            if skip_shrink and shrink_call(x) is not None:
+                sh = shrink_call(x)
+                for i, a in enumerate(x.args):
+                    b = base_name(a)
+                    if b and b != sh and call_may_mutate(x, i):
+                        out.add(b)
+                continue
             if isinstance(x, (ast.Assign, ast.AnnAssign, ast.AugAssign)):
                 targets = x.targets if isinstance(x, ast.Assign) else [x.target]
                 for t in targets:
@@ -232,6 +289,83 @@ class Analyser:
         self.unanalysed = []      # dict(line, expr, why)
         self.int_params = {a.arg for a in fn.args.args + fn.args.kwonlyargs
                            if isinstance(a.annotation, ast.Name) and a.annotation.id == "int"}
+        self.pre = PRECONDITIONS.get(fn.name, dict(nonneg=[], nonempty=[]))
+        self.int_params |= set(self.pre["nonneg"])
+
+    def expand(self, names, env: "Env"):
+        """`self.*` -> every attribute of self the environment knows"""
+        out = []
+        for n in sorted(names):
+            if n == SELF_ALL:
+                known = set(env.ver) | set(env.seqs) | set(env.elem_nonempty)
+                known |= {re.sub(r"^len_self_", "self.", v).rsplit("_", 1)[0] for v in env.vars if v.startswith("len_self_")}
+                out += sorted(k for k in known if k.startswith("self.") and k not in out)
+            elif n not in out:
+                out.append(n)
+        return out
+
+    def len_term(self, a, env: "Env") -> str | None:
+        """Coq term for len(<argument expression>): a name, a list display, a slice x[a:], x[a:b] (bounds >= 0)"""
+        b = base_name(a)
+        if b is not None:
+            env.seqs.add(b)
+            return env.lenvar(b)
+        if isinstance(a, (ast.List, ast.Tuple)) and not any(isinstance(x, ast.Starred) for x in a.elts):
+            return f"({len(a.elts)})"
+        if isinstance(a, ast.Subscript) and isinstance(a.slice, ast.Slice) and a.slice.step is None:
+            b = base_name(a.value)
+            lo = self.term(a.slice.lower, env) if a.slice.lower is not None else "(0)"
+            if b is None or lo is None:
+                return None
+            L = env.lenvar(b)
+            env.seqs.add(b)
+            if a.slice.upper is None:
+                return f"(Z.max 0 ({L} - {lo}))"
+            hi = self.term(a.slice.upper, env)
+            if hi is None:
+                return None
+            # valid for 0 <= lo, 0 <= hi only: the obligation carries both as extra goals
+            return f"(Z.max 0 (Z.min {hi} {L} - {lo}))"
+        return None
+
+    def call_site(self, call: ast.Call, env: "Env"):
+        """obligations of the callee's precondition at this call"""
+        f = call.func
+        name = f.id if isinstance(f, ast.Name) else f.attr if isinstance(f, ast.Attribute) else None
+        pre = PRECONDITIONS.get(name)
+        if pre is None or name not in ALLDEFS:
+            return
+        params = ALLDEFS[name]
+        bound = {}
+        for i, a in enumerate(call.args):
+            if i < len(params):
+                bound[params[i]] = a
+        for k in call.keywords:
+            if k.arg:
+                bound[k.arg] = k.value
+        text = f"{name}({', '.join(self.src(a) for a in call.args)})"
+        for p_ in pre["nonneg"]:
+            a = bound.get(p_)
+            t = self.term(a, env) if a is not None else None
+            if t is None:
+                self.unanalysed.append(dict(line=call.lineno, expr=text, why=f"precondition 0 <= {p_}: argument is not an integer term"))
+                continue
+            self.obligations.append(dict(line=call.lineno, expr=f"call {text}: 0 <= {p_}", vars=sorted(env.vars),
+                                         intvars=sorted(env.intvars), facts=list(env.facts), goal=f"(0 <= {t})", note="call-site precondition"))
+        for p_ in pre["nonempty"]:
+            a = bound.get(p_)
+            L = self.len_term(a, env) if a is not None else None
+            if L is None:
+                self.unanalysed.append(dict(line=call.lineno, expr=text, why=f"precondition len({p_}) >= 1: length of the argument is not expressible"))
+                continue
+            extra = ""
+            if isinstance(a, ast.Subscript) and isinstance(a.slice, ast.Slice):
+                for bnd in (a.slice.lower, a.slice.upper):
+                    if bnd is not None:
+                        extra += f" /\\ (0 <= {self.term(bnd, env)})"
+            self.obligations.append(dict(line=call.lineno, expr=f"call {text}: len({p_}) >= 1", vars=sorted(env.vars),
+                                         intvars=sorted(env.intvars), facts=list(env.facts), goal=f"((1 <= {L}){extra})",
+                                         note="call-site precondition"))
 
     # ---------------------------------------------------------------- linear integer terms
     def term(self, e, env: Env) -> str | None:
@@ -313,7 +447,7 @@ class Analyser:
             return
         if isinstance(e, (ast.Lambda, ast.ListComp, ast.SetComp, ast.DictComp, ast.GeneratorExp)):
             inner = env.copy()
-            for n in modified_names([e]):
+            for n in self.expand(modified_names([e]), inner):
                 inner.fresh(n)
             for c in ast.iter_child_nodes(e):
                 if isinstance(c, ast.comprehension):
@@ -325,6 +459,8 @@ class Analyser:
             return
         if isinstance(e, ast.Subscript) and isinstance(e.ctx, ast.Load) and not isinstance(e.slice, ast.Slice):
             self.access(e, env)
+        if isinstance(e, ast.Call):
+            self.call_site(e, env)
         for c in ast.iter_child_nodes(e):
             if isinstance(c, ast.expr):
                 self.expr(c, env)
@@ -416,7 +552,8 @@ class Analyser:
                 if isinstance(v, ast.Subscript) and isinstance(v.value, ast.Call) and isinstance(v.value.func, ast.Attribute) \
                         and v.value.func.attr == "parse" and any(k.arg == "expect_semicolon" for k in v.value.keywords):
                     pass   # the [0] itself is reported by access(): base is a call -> unanalysed
-                if isinstance(v, ast.Subscript) and base_name(v.value) in env.elem_nonempty and not isinstance(v.slice, ast.Slice):
+                if isinstance(v, ast.Subscript) and not isinstance(v.slice, ast.Slice) and \
+                        (base_name(v.value) in env.elem_nonempty or (base_name(v.value) or "").endswith(".programs")):
                     env.facts.append(f"({new} >= 1)")
                     env.seqs.add(n)
                 if isinstance(v, (ast.List, ast.Tuple)) and not any(isinstance(x, ast.Starred) for x in v.elts):
@@ -472,7 +609,7 @@ class Analyser:
                     # join: both fall through.  What held before stays; for every name either branch may have
                     # modified a new version is introduced, tied to the branch's last version inside a
                     # disjunction of what the two paths established.
-                    mod = sorted(modified_names(st.body) | modified_names(st.orelse))
+                    mod = self.expand(modified_names(st.body) | modified_names(st.orelse), env)
                     n0 = len(env.facts)
                     fa_, fb_ = ea.facts[n0:], eb.facts[n0:]
                     new_env = env.copy()
@@ -495,12 +632,19 @@ class Analyser:
                         new_env.facts.append("((" + " /\\ ".join(fa_ + eqa) + ") \\/ (" + " /\\ ".join(fb_ + eqb) + "))")
                     env = new_env
             elif isinstance(st, (ast.For, ast.While)):
-                mod = modified_names([st])
+                mod = self.expand(modified_names([st]), env)
+                # round 4: lists the loop changes ONLY through calls of SHRINKERS: `never longer` and `non-empty stays
+                # non-empty` hold at every iteration and after the loop (range_loop_post of Proofs/TokMacro.v)
+                shrink_only = [n for n in mod if n not in self.expand(modified_names([st], skip_shrink=True), env)]
+                pre_len = {n: env.lenvar(n) for n in shrink_only}
                 if isinstance(st, ast.For):
                     self.expr(st.iter, env)
                 inner = env.copy()
                 for n in mod:
-                    inner.fresh(n)
+                    v = inner.fresh(n)
+                    if n in pre_len:
+                        inner.facts.append(f"({v} <= {pre_len[n]} /\\ ({pre_len[n]} >= 1 -> {v} >= 1))")
+                        inner.seqs.add(n)
                     self.forget_int(n, inner)
                     self.forget_int(n, env)
                 if isinstance(st, ast.For):
@@ -508,6 +652,17 @@ class Analyser:
                     if isinstance(st.target, ast.Name) and (it in env.elem_nonempty or (it or "").endswith(".programs")):
                         inner.facts.append(f"({inner.lenvar(st.target.id)} >= 1)")
                         inner.seqs.add(st.target.id)
+                    # for k, x in enumerate(seq): 0 <= k (and k < len seq when the loop leaves seq alone)
+                    if isinstance(st.target, ast.Tuple) and len(st.target.elts) == 2 and isinstance(st.target.elts[0], ast.Name) \
+                            and isinstance(st.iter, ast.Call) and isinstance(st.iter.func, ast.Name) and st.iter.func.id == "enumerate" \
+                            and len(st.iter.args) == 1:
+                        kname = st.target.elts[0].id
+                        self.loop_ints.add(kname)
+                        iv = inner.intvar(kname)
+                        inner.facts.append(f"(0 <= {iv})")
+                        sq = base_name(st.iter.args[0])
+                        if sq is not None and sq not in mod:
+                            inner.facts.append(f"({iv} < {inner.lenvar(sq)})")
                     # for i in range(len(x)) : 0 <= i < len x  (x unmodified in the loop only)
                     if isinstance(st.target, ast.Name) and isinstance(st.iter, ast.Call) and isinstance(st.iter.func, ast.Name) \
                             and st.iter.func.id == "range" and len(st.iter.args) == 1:
@@ -527,11 +682,14 @@ class Analyser:
                 after = env.copy()
                 after.ver = dict(inner.ver)
                 for n in mod:
-                    after.fresh(n)
+                    v = after.fresh(n)
+                    if n in pre_len:
+                        after.facts.append(f"({v} <= {pre_len[n]} /\\ ({pre_len[n]} >= 1 -> {v} >= 1))")
+                        after.seqs.add(n)
                 self.block(st.orelse, after.copy())
                 env = after
             elif isinstance(st, ast.Try):
-                mod = modified_names(st.body)
+                mod = self.expand(modified_names(st.body), env)
                 self.block(st.body, env.copy())
                 after = env.copy()
                 for n in mod:
@@ -545,6 +703,9 @@ class Analyser:
                 continue
             elif isinstance(st, (ast.Assign, ast.AnnAssign)):
                 self.assign(st, env)
+                if st.value is not None and SELF_ALL in modified_names([st.value]):
+                    for n in self.expand({SELF_ALL}, env):
+                        env.fresh(n)
                 self.callee_post(st, env)
             elif isinstance(st, ast.AugAssign):
                 self.expr(st.value, env)
@@ -585,7 +746,14 @@ class Analyser:
                         self.expr(c, env)
                 self.callee_post(st, env)
                 # mutating calls / callee-side mutation
-                for n in modified_names([st]):
+                shr = shrink_call(st.value) if isinstance(st, ast.Expr) else None
+                for n in self.expand(modified_names([st]), env):
+                    if shr is not None and n == shr and n not in self.expand(modified_names([st], skip_shrink=True), env):
+                        old = env.lenvar(n)
+                        new = env.fresh(n)
+                        env.facts.append(f"({new} <= {old} /\\ {old} - 2 <= {new} /\\ ({old} >= 1 -> {new} >= 1))")
+                        env.seqs.add(n)
+                        continue
                     exact = None
                     if isinstance(st, ast.Expr) and isinstance(st.value, ast.Call) and isinstance(st.value.func, ast.Attribute) \
                             and st.value.func.attr in MUTATORS_EXACT and base_name(st.value.func.value) == n:
@@ -606,9 +774,14 @@ class Analyser:
                     self.subscripted.add(b)
         env = Env()
         for a in self.fn.args.args + self.fn.args.kwonlyargs:
-            if a.arg in STATEMENT_PARAMS:
+            if (a.arg in STATEMENT_PARAMS and self.fn.name not in NO_STATEMENT_PARAMS) or a.arg in self.pre["nonempty"]:
                 env.facts.append(f"({env.lenvar(a.arg)} >= 1)")
                 env.seqs.add(a.arg)
+            if a.arg in self.pre["nonneg"]:
+                env.facts.append(f"(0 <= {env.intvar(a.arg)})")
+        for attr in STATEMENT_ATTRS.get(self.fn.name, []):
+            env.facts.append(f"({env.lenvar(attr)} >= 1)")
+            env.seqs.add(attr)
         self.block(self.fn.body, env)
 
 
@@ -616,7 +789,10 @@ def analyse_tree(repo: Path):
     """-> list of dict(file, function, line, expr, kind: 'obligation'|'unanalysed', ...)"""
     out = []
     DEFS.clear()
+    ALLDEFS.clear()
     _PURITY_CACHE.clear()
+    every = {}
+    callers = {}        # precondition function -> [(file, enclosing function name, line)] of its call sites in the tree
     seen_names = {}
     for py in sorted((repo / "src" / "jmc" / "compile").rglob("*.py")):
         try:
@@ -626,9 +802,22 @@ def analyse_tree(repo: Path):
         for node in t.body:
             if isinstance(node, ast.FunctionDef):
                 seen_names.setdefault(node.name, []).append(node)
+        for node in ast.walk(t):
+            if isinstance(node, ast.FunctionDef):
+                every.setdefault(node.name, []).append(node)
+                for x in ast.walk(node):
+                    if isinstance(x, ast.Call):
+                        nm = x.func.id if isinstance(x.func, ast.Name) else x.func.attr if isinstance(x.func, ast.Attribute) else None
+                        if nm in PRECONDITIONS:
+                            encl = node.name       # innermost enclosing def: the last one seen wins below
+                            callers.setdefault(nm, {})[(py.name, x.lineno)] = encl if (py.name, x.lineno) not in callers.get(nm, {}) \
+                                or True else encl
     for name, nodes in seen_names.items():
         if len(nodes) == 1:
             DEFS[name] = (nodes[0], [a.arg for a in nodes[0].args.args])
+    for name, nodes in every.items():
+        if len(nodes) == 1:
+            ALLDEFS[name] = [a.arg for a in nodes[0].args.args if a.arg != "self"]
     for rel, fns in TARGETS.items():
         path = repo / rel
         text = path.read_text(encoding="utf-8")
@@ -647,6 +836,15 @@ def analyse_tree(repo: Path):
             if f not in found:
                 out.append(dict(file=rel.split("/")[-1], function=f, kind="unanalysed", line=0, expr="<function>",
                                 why="function not found in the tree under test"))
+    # round 4: every call site of a `complete` precondition function must lie inside an analysed function
+    analysed = {(rel.split("/")[-1], f) for rel, fns in TARGETS.items() for f in fns}
+    for name, sites in sorted(callers.items()):
+        if not PRECONDITIONS[name].get("complete"):
+            continue
+        for (fname, line), encl in sorted(sites.items()):
+            if (fname, encl) not in analysed:
+                out.append(dict(file=fname, function=encl, kind="unanalysed", line=line, expr=f"call of {name}",
+                                why=f"call site of {name} (precondition {PRECONDITIONS[name]}) outside the analysed functions"))
     return out
 
 
@@ -665,10 +863,13 @@ def probe_file(items) -> str:
     return "\n".join(s) + "\n"
 
 
-def guards_file(items, closed: set[int]) -> str:
+def guards_file(items, closed: set[int], only=None) -> str:
+    """`only`: indices of the obligations written into this file (the check splits them over several files)"""
     s = ["(* REGENERATED on every run by harness/translate_guards.py from the tree under test. *)",
          "From Coq Require Import ZArith Lia.", "Open Scope Z_scope.", ""]
     for i, o in enumerate(items):
+        if only is not None and i not in only:
+            continue
         loc = f"{o['file']}:{o['function']}:{o['line']}  {o['expr']}"
         if i in closed:
             s.append(f"(* {loc} {o.get('note', '')} *)\nLemma guard_{i} : {coq_statement(o)}.\nProof. intros; lia. Qed.")
